@@ -407,44 +407,62 @@ impl C16 {
         out
     }
 
-    /// (3) crash: a child process runs prefix, flush, then aborts at the k-th storage operation of the suffix
-    fn crash(&self, prefix: &[Op], suffix: &[Op], cfg: &Cfg, k: u64) -> Result<Vec<Discrepancy>, String> {
+    /// (3) crash: a child process runs the whole history, records every acknowledged operation in a side
+    /// file, and aborts at the k-th storage operation after creation. Everything acknowledged up to the last
+    /// acknowledged flush must be there after recovery (positions touched afterwards are undetermined).
+    fn crash(&self, hist: &[Op], cfg: &Cfg, k: u64) -> Result<Vec<Discrepancy>, String> {
         let mut out = vec![];
-        let mut hist = prefix.to_vec();
-        hist.push(Op::Flush);
-        hist.extend_from_slice(suffix);
-        let case = json!({"kind":"crash","prefix":prefix.iter().map(|o| o.to_json()).collect::<Vec<_>>(),"suffix":suffix.iter().map(|o| o.to_json()).collect::<Vec<_>>(),"cfg":{"cache":cfg.cache,"flush_ms":cfg.flush_ms,"mode":cfg.mode,"compression":cfg.compression},"k":k});
+        let case = case_json("crash", hist, cfg, Some(k));
         let path = scratch_dir("c16x");
+        let ack = scratch_dir("c16ack");
         let exe = crate::explore::self_exe()?;
-        let arg = json!({"path": path.to_str().unwrap(), "case": case}).to_string();
+        let arg = json!({"path": path.to_str().unwrap(), "ack": ack.to_str().unwrap(), "case": case}).to_string();
         let st = std::process::Command::new(exe).args(["--worker", "crash", &arg]).stdout(std::process::Stdio::null()).stderr(std::process::Stdio::null()).status().map_err(|e| e.to_string())?;
+        let acked: Vec<usize> = std::fs::read_to_string(&ack).unwrap_or_default().lines().filter_map(|l| l.trim().parse().ok()).collect();
+        let _ = std::fs::remove_file(&ack);
+        let last_flush = acked.iter().cloned().filter(|i| hist.get(*i) == Some(&Op::Flush)).max();
         let mut m = Model { tree: IdealTree::new(DEPTH), meta: vec![] };
-        for op in prefix {
-            m.step(op);
-        }
         let mut excluded: Vec<u64> = vec![];
-        let mut hw = m.tree.hwm;
-        for op in suffix {
-            excluded.extend(op.targets(hw));
-            hw += 1;
+        let mut meta_touched = false;
+        if let Some(f) = last_flush {
+            for (i, op) in hist.iter().enumerate() {
+                if i <= f {
+                    if acked.contains(&i) {
+                        m.step(op);
+                    }
+                } else {
+                    // may or may not have reached storage before the crash
+                    break;
+                }
+            }
+            // positions the later operations may touch (followed on a copy of the model as if they all succeed)
+            let mut fwd = m.clone();
+            for op in hist.iter().skip(f + 1) {
+                excluded.extend(op.targets(fwd.tree.hwm));
+                if matches!(op, Op::Meta(_)) {
+                    meta_touched = true;
+                }
+                fwd.step(op);
+            }
         }
-        let meta_touched = suffix.iter().any(|o| matches!(o, Op::Meta(_)));
         match guard(|| open(&path, cfg)) {
             Err(p) => out.push(Discrepancy { key: "C16/crash/reopen-panics".into(), case: case.clone(), detail: p }),
             Ok(Err(e)) => out.push(Discrepancy { key: "C16/crash/reopen-fails".into(), case: case.clone(), detail: format!("child exit {:?}: {e}", st.code()) }),
             Ok(Ok(t)) => {
-                let after = observe(&t)?;
-                for i in 0..(1u64 << DEPTH) {
-                    if !excluded.contains(&i) && after.leaves[i as usize] != m.tree.leaf(i) {
-                        out.push(Discrepancy { key: "C16/crash/flushed-update-lost".into(), case: case.clone(), detail: format!("position {i}: {} was flushed before the crash, {} after recovery", m.tree.leaf(i), after.leaves[i as usize]) });
-                        break;
+                if last_flush.is_some() {
+                    let after = observe(&t)?;
+                    for i in 0..(1u64 << DEPTH) {
+                        if !excluded.contains(&i) && after.leaves[i as usize] != m.tree.leaf(i) {
+                            out.push(Discrepancy { key: "C16/crash/flushed-update-lost".into(), case: case.clone(), detail: format!("position {i}: {} was acknowledged and flushed before the crash, {} after recovery (acknowledged operations {:?}, crash at storage operation {k})", m.tree.leaf(i), after.leaves[i as usize], acked) });
+                            break;
+                        }
                     }
-                }
-                if after.hwm < m.tree.hwm {
-                    out.push(Discrepancy { key: "C16/crash/leaf-count-lost".into(), case: case.clone(), detail: format!("{} < {}", after.hwm, m.tree.hwm) });
-                }
-                if !meta_touched && after.meta != m.meta {
-                    out.push(Discrepancy { key: "C16/crash/metadata-lost".into(), case: case.clone(), detail: format!("{:?} vs {:?}", after.meta, m.meta) });
+                    if after.hwm < m.tree.hwm {
+                        out.push(Discrepancy { key: "C16/crash/leaf-count-lost".into(), case: case.clone(), detail: format!("leaf count {} after recovery, {} was flushed", after.hwm, m.tree.hwm) });
+                    }
+                    if !meta_touched && after.meta != m.meta {
+                        out.push(Discrepancy { key: "C16/crash/metadata-lost".into(), case: case.clone(), detail: format!("{:?} vs {:?}", after.meta, m.meta) });
+                    }
                 }
             }
         }
@@ -562,11 +580,7 @@ impl Prop for C16 {
             "creation-fault" => self.creation_fault(&cfg, case["k"].as_u64().unwrap_or(0)),
             "rln-reopen" => self.rln_reopen(&hist),
             "locked-reopen" => self.locked_reopen(&hist, &cfg, case["hold_ms"].as_u64().unwrap_or(20)).0,
-            "crash" => {
-                let p: Vec<Op> = case["prefix"].as_array().map(|a| a.iter().filter_map(Op::from_json).collect()).unwrap_or_default();
-                let s: Vec<Op> = case["suffix"].as_array().map(|a| a.iter().filter_map(Op::from_json).collect()).unwrap_or_default();
-                self.crash(&p, &s, &cfg, case["k"].as_u64().unwrap_or(0)).unwrap_or_default()
-            }
+            "crash" => self.crash(&hist, &cfg, case["k"].as_u64().unwrap_or(0)).unwrap_or_default(),
             _ => vec![],
         }
     }
@@ -644,35 +658,34 @@ impl Prop for C16 {
         for o in lr {
             findings.report_all(o);
         }
-        // (3) crash points
-        let mut ncrash = 0u64;
+        // (3) crash points: every history up to a bound, closed by [flush, one more write]; abort at every storage operation
+        let ncrash;
         {
-            let prefixes: Vec<Vec<Op>> = if q { vec![vec![Op::T(TreeOp::Set(0, 1)), Op::T(TreeOp::Set(5, 2))]] } else { histories(2).into_iter().filter(|h| h.len() == 2 && !h.contains(&Op::Flush)).step_by(3).collect() };
-            let suffixes: Vec<Vec<Op>> = if q { vec![vec![Op::T(TreeOp::Range(2, vec![1, 2]))], vec![Op::T(TreeOp::Set(1, 2)), Op::Meta(b"x".to_vec())]] } else { alphabet().into_iter().filter(|o| *o != Op::Flush).map(|o| vec![o, Op::T(TreeOp::Append(2))]).collect() };
-            let mut citems = vec![];
-            for p in &prefixes {
-                for s in &suffixes {
-                    // W of the suffix: dry run
-                    let path = scratch_dir("c16d");
-                    fault::disarm();
-                    let w = match open(&path, &base) {
-                        Ok(mut t) => {
-                            for op in p { let _ = apply(&mut t, op); }
-                            let _ = apply(&mut t, &Op::Flush);
-                            let w0 = fault::ops();
-                            for op in s { let _ = apply(&mut t, op); }
-                            fault::ops() - w0
-                        }
-                        Err(_) => 0,
-                    };
-                    let _ = std::fs::remove_dir_all(&path);
-                    for k in 0..w {
-                        citems.push((p.clone(), s.clone(), k));
+            let tail = [Op::Flush, Op::T(TreeOp::Set(6, 1))];
+            let chs: Vec<Vec<Op>> = histories(if q { 2 } else { 3 }).into_iter().filter(|h| !h.is_empty()).map(|mut h| { h.extend_from_slice(&tail); h }).collect();
+            // W of each history by a dry run (storage operations after creation)
+            let ws = par_map(&chs, ncpu(), |_, h| {
+                let path = scratch_dir("c16d");
+                fault::disarm();
+                let w = match open(&path, &base) {
+                    Ok(mut t) => {
+                        let w0 = fault::ops();
+                        for op in h { let _ = apply(&mut t, op); }
+                        fault::ops() - w0
                     }
+                    Err(_) => 0,
+                };
+                let _ = std::fs::remove_dir_all(&path);
+                w
+            });
+            let mut xitems: Vec<(usize, u64)> = vec![];
+            for (i, w) in ws.iter().enumerate() {
+                for k in 0..*w {
+                    xitems.push((i, k));
                 }
             }
-            ncrash = citems.len() as u64;
-            let rc = par_map(&citems, ncpu(), |_, (p, s, k)| self.crash(p, s, &base, *k));
+            ncrash = xitems.len() as u64;
+            let rc = par_map(&xitems, ncpu(), |_, (i, k)| self.crash(&chs[*i], &base, *k));
             for o in rc {
                 findings.report_all(o?);
             }
@@ -689,7 +702,7 @@ impl Prop for C16 {
         ev.set("compression_available", json!(comp_ok));
         ev.set("max_storage_ops_per_history", json!(ws.iter().max().cloned().unwrap_or(0)));
         ev.set("exhaustive", json!(true));
-        ev.set("rule", json!("histories: every sequence of length <= L (3 quick / 4 thorough) over {set(0,a), set(5,b), delete(0), append(a), write_range(2,[a,b]), batch(0,[b],{0}), batch(remove {0,2}), set_metadata, flush} on a persistent tree of depth 3; (1) each history + flush + drop + reopen must give root, leaves, leaf count and metadata of the ideal tree, and four further operations on the reopened tree must follow the ideal tree; a spread of histories under every storage configuration; (2) for each history the number W of storage operations is measured by a dry run and for every k < W the k-th operation is made to fail: the tree operation in progress must return Err, then flush, drop, reopen must show every acknowledged update outside the failed operation's targets; faults during creation; reopening while the previous instance still holds the storage lock for {0,3,25,120} ms; (3) crash points: a child process aborts at the k-th storage operation after an acknowledged flush and the parent checks what was flushed; distinct_nontrivial = distinct (history, k) fault positions + crash points"));
+        ev.set("rule", json!("histories: every sequence of length <= L (3 quick / 4 thorough) over {set(0,a), set(5,b), delete(0), append(a), write_range(2,[a,b]), batch(0,[b],{0}), batch(remove {0,2}), set_metadata, flush} on a persistent tree of depth 3; (1) each history + flush + drop + reopen must give root, leaves, leaf count and metadata of the ideal tree, and four further operations on the reopened tree must follow the ideal tree; a spread of histories under every storage configuration; (2) for each history the number W of storage operations is measured by a dry run and for every k < W the k-th operation is made to fail: the tree operation in progress must return Err, then flush, drop, reopen must show every acknowledged update outside the failed operation's targets; faults during creation; reopening while the previous instance still holds the storage lock for {0,3,25,120} ms; (3) crash points: for every history up to length 2 (quick) / 3 (thorough) followed by [flush, write] a child process runs it, records each acknowledged operation in a side file and aborts at the k-th storage operation, for every k; after recovery everything acknowledged up to the last acknowledged flush must be there; distinct_nontrivial = distinct (history, k) fault positions + crash points"));
         if let Some((i, k)) = fitems.get(fitems.len() / 2) {
             ev.sample(case_json("fault", &hs[*i], &base, Some(*k)));
         }
@@ -702,24 +715,25 @@ impl Prop for C16 {
 
 /// `zkv --worker crash <json>`: child of the crash variant
 pub fn worker_crash(arg: &str) -> i32 {
+    use std::io::Write;
     let v: Value = match serde_json::from_str(arg) { Ok(v) => v, Err(_) => return 2 };
     let path = PathBuf::from(v["path"].as_str().unwrap_or("/nonexistent"));
+    let ack = PathBuf::from(v["ack"].as_str().unwrap_or("/nonexistent"));
     let case = &v["case"];
     let cfg = cfg_from(&case["cfg"]);
-    let p: Vec<Op> = case["prefix"].as_array().map(|a| a.iter().filter_map(Op::from_json).collect()).unwrap_or_default();
-    let s: Vec<Op> = case["suffix"].as_array().map(|a| a.iter().filter_map(Op::from_json).collect()).unwrap_or_default();
+    let hist: Vec<Op> = case["history"].as_array().map(|a| a.iter().filter_map(Op::from_json).collect()).unwrap_or_default();
     fault::disarm();
     let mut t = match open(&path, &cfg) { Ok(t) => t, Err(_) => return 3 };
-    for op in &p {
-        let _ = apply(&mut t, op);
-    }
-    if apply(&mut t, &Op::Flush) != R::Ok {
-        return 4;
-    }
+    let mut log = match std::fs::OpenOptions::new().create(true).append(true).open(&ack) { Ok(f) => f, Err(_) => return 4 };
     fault::arm(case["k"].as_u64().unwrap_or(0), fault::MODE_ABORT);
-    for op in &s {
-        let _ = apply(&mut t, op);
+    for (i, op) in hist.iter().enumerate() {
+        if apply(&mut t, op) == R::Ok {
+            // the acknowledgement is recorded before anything else happens (the write reaches the page cache,
+            // which survives the abort)
+            let _ = writeln!(log, "{i}");
+            let _ = log.flush();
+        }
     }
-    // not reached when k is below the number of storage operations of the suffix
-    0
+    // reached only when k is not below the number of storage operations of the history
+    std::process::abort();
 }
